@@ -114,7 +114,23 @@ pub struct Decl {
 
 // ------------------------------------------------------------------ rendering
 
+/// attributes that are not `#[darling(..)]`, however much they look like it: their content, which would
+/// be a violation or change the declaration if it were read, has no effect
+const LOOK_ALIKES: [&str; 7] = [
+    "#[::darling(bogus, skip, flatten)] ",
+    "#[darling::x(bogus)] ",
+    "#[x::darling(rename = 5, flatten, skip)] ",
+    "#[serde::rename(skip)] ",
+    "#[darlings(flatten, multiple)] ",
+    "#[darling::darling(with = 5)] ",
+    "#[::serde(default = 1)] ",
+];
+
 fn render_attrs(out: &mut String, attrs: &mut [Vec<Occ>]) {
+    // one declaration position in seven carries a look-alike as well (also where nothing else is written)
+    if (out.len() + attrs.len()) % 7 == 3 {
+        out.push_str(LOOK_ALIKES[(out.len() / 7) % LOOK_ALIKES.len()]);
+    }
     for group in attrs.iter_mut() {
         // `r#darling` is `darling` spelled as a raw identifier: the same attribute
         out.push_str(if (out.len() + group.len()) % 6 == 0 { "#[r#darling(" } else { "#[darling(" });
